@@ -62,6 +62,14 @@ def gen_data(rng, n, family="mixed"):
     """family 'mixed': segments of random bytes / words (some x86 call opcodes) / runs; 'repetitive': see above."""
     if family == "repetitive":
         return gen_repetitive(rng, n)
+    if family == "text":
+        # compresses about 3:1: an LZMA2 chunk fills up (64 KiB compressed) after roughly 200 KB
+        vocab = [bytes(rng.choice(b"abcdefghijklmnopqrstuvwxyz") for _ in range(rng.randint(2, 9))) for _ in range(3000)]
+        parts = []; ln = 0
+        while ln < n:
+            w = rng.choice(vocab) if rng.random() < 0.93 else b"%d" % rng.getrandbits(24)
+            parts.append(w); parts.append(b" " if rng.random() < 0.9 else b"\n"); ln += len(w) + 1
+        return b"".join(parts)[:n]
     out = bytearray()
     words = [b"alpha ", b"beta ", b"gamma\n", b"\xe8\x10\x00\x00\x00", b"\xe9\xf0\xff\xff\xff", b"0123456789", b"\x00\x00\x00\x00"]
     while len(out) < n:
@@ -79,6 +87,34 @@ def gen_data(rng, n, family="mixed"):
         else:
             out += bytes([rng.getrandbits(8)]) * seg
     return bytes(out[:n])
+
+_SHARED = {}
+def shared_data(seed, n, family):
+    import random
+    k = (seed, n, family)
+    if k not in _SHARED:
+        _SHARED.clear()
+        _SHARED[k] = gen_data(random.Random(seed), n, family)
+    return _SHARED[k]
+
+def chunk_boundaries(hist):
+    """Input offsets at which the real encoder closes LZMA2 chunks when it gets hist's shared data in one piece with
+    LZMA_FINISH (chunks close there because they are full).  Found with glue only."""
+    data = shared_data(hist["data_seed"], hist["data_len"], hist["data"])
+    f = chain_filters(hist["chain"], hist["lzopt"])
+    c = lz.Coder()
+    if c.init("lzma_raw_encoder", f) != lz.OK:
+        raise DriverError("raw encoder init failed")
+    res = lz.run_coder(c, data)
+    c.end()
+    r = gl2.decode(res["out"], hist["lzopt"]["dict_size"], collect=None)
+    offs = []; pos = 0
+    for ch in r.chunks:
+        if ch["kind"] == "end":
+            break
+        pos += ch["usize"]
+        offs.append(dict(end=pos, kind=ch["kind"]))
+    return offs[:-1]
 
 # ------------------------------------------------------------------------------------------------ decoding judges
 def _lib_decode(init, args, data, finish):
@@ -287,7 +323,11 @@ def run_history(hist, rng, max_calls=400000):
     total = sum(o["n"] for o in hist["ops"] if o["k"] == "op") * unit
     probe = hist.get("probe", True)
     hist.setdefault("data", rng.choice(["mixed", "mixed", "repetitive"]))
-    data = gen_data(rng, total, hist["data"])
+    if "data_seed" in hist:
+        # a fixed input shared by a family of histories (every history uses a prefix of it)
+        data = shared_data(hist["data_seed"], max(hist["data_len"], total), hist["data"])[:total]
+    else:
+        data = gen_data(rng, total, hist["data"])
     filters0 = chain_filters(chain0, lzopt)
     check = lz.CHECK_CRC32 if hist["check"] == "crc" else lz.CHECK_NONE
     # a failing lzma_allocator (only histories that ask for it: every allocation goes through Python)
@@ -446,6 +486,9 @@ def worker_main():
     out = sys.stdout
     for line in sys.stdin:
         req = json.loads(line)
+        if "boundaries" in req:
+            out.write(json.dumps(dict(ok=True, boundaries=chunk_boundaries(req["boundaries"]))) + "\n"); out.flush()
+            continue
         # tell the parent what is being executed, in case the process dies
         try:
             res = run_history(req["hist"], random.Random(req["seed"]))
